@@ -187,4 +187,14 @@ pub fn long_symbol_report() {
         }
     }
     println!("long-marker max-symbol-bytes histogram: {:?}", hist);
+    let mut h = [0u32; 12];
+    for i in 0..200u64 {
+        let mut t = Tape::random(i);
+        let (p, r) = gen::carry_stress_plain(&mut t);
+        h[(r as usize).min(11)] += 1;
+        if i < 2 {
+            println!("carry stress: {} bytes, carry resolved a run of {} pending 0xFF", p.len(), r);
+        }
+    }
+    println!("carry-resolved pending-run histogram: {:?}", h);
 }
